@@ -149,10 +149,30 @@ def mdd_ops(ctx, lens, steps):
                 if (th == exp) != (h == r):
                     ctx.violation('C15:mdd-canonical', f'{h} and {r}: equal tables {th == exp}, equal refs {h == r}', case)
                     return
-        elif k < 0.85 and held:
+        elif k < 0.8 and held:
             u = rng.choice(list(held))
             s.op(A, 'decref', u)
             del held[u]
+        elif k < 0.9:
+            # collection + re-use: the same question after the operands' numbers were re-used
+            tabs = [tuple(rng.random() < 0.5 for _ in space) for _ in range(2)]
+            us = [build(t) for t in tabs]
+            if None in us:
+                continue
+            name = rng.choice(['and', 'or', 'xor'])
+            f = {'and': lambda x, y: x and y, 'or': lambda x, y: x or y, 'xor': lambda x, y: x != y}[name]
+            r1 = s.op(A, 'apply', name, us[0], us[1], None)
+            s.op(A, 'gc')
+            tabs2 = [tuple(rng.random() < 0.5 for _ in space) for _ in range(2)]
+            us2 = [build(t) for t in tabs2]
+            if None in us2:
+                continue
+            r2 = s.op(A, 'apply', name, us2[0], us2[1], None)
+            exp2 = tuple(f(x, y) for x, y in zip(*tabs2))
+            ctx.count('mdd:reuse')
+            if r2 is None or abs(r2) not in d._succ or table(r2) != exp2:
+                ctx.violation('C15:mdd-op', f'MDD {name} after collection and re-use of node numbers is not pointwise', case)
+                return
         else:
             s.op(A, 'gc')
             keep = {1}
@@ -174,8 +194,65 @@ def mdd_ops(ctx, lens, steps):
     ctx.sample(dict(stream=s.label, first_lines=s.lines[:8]))
 
 
+def mdd_reuse(ctx, lens, reps):
+    """operands freed by a collection, their numbers re-used by other
+    functions, the same connective asked again (results that are constants
+    or held nodes survive the collection: a cache keyed by node numbers must
+    not answer for the new operands)"""
+    rng = ctx.rng
+    nv = len(lens)
+    space = list(itertools.product(*[range(n) for n in lens]))
+    for rep in range(reps):
+        s = ctx.session(f'mdd reuse lens={lens} rep={rep}')
+        A = 'm0'
+        s.op(A, 'new', {v: (v, lens[v]) for v in range(nv)})
+        d = s.impl.mmgr[A]
+
+        def table(u):
+            return tuple(mdd_eval(d, u, dict(enumerate(vals))) for vals in space)
+
+        def build(tab):
+            def go(level, prefix):
+                if level == nv:
+                    return 1 if tab[space.index(tuple(prefix))] else -1
+                kids = [go(level + 1, prefix + [j]) for j in range(lens[level])]
+                if any(k is None for k in kids):
+                    return None
+                return s.op(A, 'find_or_add', level, kids)
+            return go(0, [])
+        case = lambda: dict(stream=s.label, lines=list(s.lines))  # noqa: E731
+        for _ in range(4):
+            name = rng.choice(['and', 'or', 'xor', 'equiv'])
+            f = {'and': lambda x, y: x and y, 'or': lambda x, y: x or y, 'xor': lambda x, y: x != y,
+                 'equiv': lambda x, y: x == y}[name]
+            ta = tuple(rng.random() < 0.5 for _ in space)
+            tb = tuple(not x for x in ta) if name in ('and', 'or') else ta   # constant result
+            a, b = build(ta), build(tb)
+            if a is None or b is None:
+                continue
+            s.op(A, 'apply', name, a, b, None)
+            s.op(A, 'gc')
+            # same first operand (same shape, so it tends to get the same number back)
+            ta2 = ta if rng.random() < 0.6 else tuple(rng.random() < 0.5 for _ in space)
+            tb2 = tuple(rng.random() < 0.5 for _ in space)
+            a2, b2 = build(ta2), build(tb2)
+            if a2 is None or b2 is None:
+                continue
+            r = s.op(A, 'apply', name, a2, b2, None)
+            exp = tuple(f(x, y) for x, y in zip(ta2, tb2))
+            ctx.case(('mdd-reuse', tuple(lens), name, ta, ta2, tb2), True)
+            ctx.count('mdd:reuse')
+            if r is None or abs(r) not in d._succ or table(r) != exp:
+                ctx.violation('C15:mdd-op', f'MDD {name} after a collection and re-use of the operands\' '
+                                            f'node numbers is not pointwise', case)
+                break
+            s.op(A, 'gc')
+
+
 def run(ctx):
     q = ctx.quick
+    for lens in ([2], [3], [4], [2, 2], [3, 2]):
+        mdd_reuse(ctx, lens, (25 if len(lens) == 1 else 6) if q else 80)
     rng = ctx.rng
     shapes = [[1], [2], [3], [1, 1], [2, 1], [1, 2], [2, 2], [3, 2], [1, 1, 1], [2, 1, 2], [2, 2, 2], [3, 2, 1]]
     for shape in shapes:
